@@ -1,5 +1,6 @@
 """C12 — group velocities / derivative of the dynamical matrix."""
 from contracts import c_ddm as DD
+from contracts import py_gruneisen as PG
 
 
 def build(run):
@@ -7,3 +8,4 @@ def build(run):
     run.verify_c([DD.hermitian_contract()], registry=reg)
     DD.nac_scalar_lemmas(run)
     run.verify_c([DD.derivative_block_contract()])
+    PG.band_order_pairing(run)
